@@ -84,6 +84,57 @@ def gexp(w: GuardWalk, g):
     return w.expand_formula(strip_iter(g))
 
 
+def _falls_off(fn: ast.FunctionDef) -> bool:
+    """the body can end without a return / raise"""
+    def ends(stmts) -> bool:
+        if not stmts:
+            return True
+        last = stmts[-1]
+        if isinstance(last, (ast.Return, ast.Raise)):
+            return False
+        if isinstance(last, ast.If):
+            return ends(last.body) or ends(last.orelse)
+        return True
+    return ends(fn.body)
+
+
+def step_installs(index: RepoIndex, rep, rule: str) -> None:
+    """what an action does to a door or a box reaches the environment: InnerEnv.step stores
+    component 0 of its functional_step call on every path that returns, and
+    GridWorld.functional_step returns the very copy its transition call modified"""
+    from ..view import step_wiring, view
+    cls = index.cls(INNER, 'InnerEnv')
+    m = cls.methods.get('step')
+    if m is None:
+        raise AnalysisError('anchor vanished: InnerEnv.step')
+    node, w, _ = view(index, m)
+    st = [e for e in w.events if self_attr_store(e, '_state')]
+    fcalls = [e for e in w.events if e.kind == 'call'
+              and src(e.node.func) == 'self.functional_step']
+    if not st or not fcalls:
+        raise AnalysisError('InnerEnv.step: no store of _state from functional_step (written '
+                            'through helpers the view does not inline)')
+    normal = [x for x in w.events if x.kind == 'return' and x.order > fcalls[0].order]
+    guards = [x.guard for x in normal] + ([('true',)] if _falls_off(node) or not normal else [])
+    for gd in guards:
+        rep.check(any(implies_syntactic(gd, e.guard) for e in st), rule, INNER, m.short,
+                  st[0].line, src(st[0].stmt),
+                  f'{m.short} stores the new state only when '
+                  f'`{show(strip_iter(st[0].guard))}`: an opened box whose content is another '
+                  f'box compares equal to the closed one and would never open',
+                  'step installs the new state')
+    sw = step_wiring(index)
+    w2, C = sw['walk'], sw['copy']
+    rets = [e for e in w2.events if e.kind == 'return' and e.value is not None]
+    first = [src(w2.expand(r.value.elts[0], stop=[C] if C else []))
+             if isinstance(r.value, ast.Tuple) and r.value.elts else src(r.value) for r in rets]
+    rep.check(bool(rets) and C is not None and all(f_ == C for f_ in first), rule, GW,
+              'GridWorld.functional_step', sw['func'].node.lineno, '; '.join(first)[:120],
+              f'functional_step returns `{"; ".join(first)[:80]}` as the next state, not the '
+              f'copy `{C}` its transition modified on every path', 'functional_step returns the '
+              'modified copy')
+
+
 def run(index: RepoIndex, rep) -> None:
     from ..view import view
     rep.rule('C04.R1', 'every write of _state comes from one functional_reset()/'
@@ -166,6 +217,24 @@ def run(index: RepoIndex, rep) -> None:
                       and bool(inv), 'C04.R1', INNER, m.short, e.line, src(e.stmt),
                       f'{m.short}: a path from the write of _state reaches the exit without '
                       f'`self._observation = None` (stale observation)', 'invalidation')
+        # the result of the functional call is installed on every path that returns normally:
+        # a store under a condition (`if next_state != self._state:` -- equality ignores the
+        # content of boxes) keeps the old state although the dynamics produced another one
+        if fcalls and not helper_only:
+            normal = [x for x in w.events if x.kind == 'return' and x.order > fcalls[0].order]
+            guards = [x.guard for x in normal] or [('true',)]
+            if not _falls_off(node) and not normal:
+                guards = []
+            elif _falls_off(node) and normal:
+                guards.append(('true',))
+            for gd in guards:
+                covered = any(implies_syntactic(gd, e.guard) for e in st)
+                rep.check(covered, 'C04.R1', INNER, m.short, st[0].line, src(st[0].stmt),
+                          f'{m.short}: the state returned by the functional call is stored only '
+                          f'when `{show(strip_iter(st[0].guard))}`; on the other paths the '
+                          f'environment keeps its old state (states that compare equal need not '
+                          f'be the same: equality ignores what a box contains)',
+                          'state installed on every path')
         # step-like: returns (reward, done) of the same call
         if fcalls and src(fcalls[0].node.func) == 'self.functional_step' and not helper_only:
             rets = [e for e in w.events if e.kind == 'return' and e.value is not None]
